@@ -647,9 +647,19 @@ func GenPair(r *Rng, o PairOpts) (old, nw *Build, rel []string) {
 func (r *Rng) pickDest(b *Build) string {
 	if len(b.Entries) > 0 && r.Intn(3) != 0 {
 		e := b.Entries[r.Intn(len(b.Entries))]
-		return filepath.Base(e.Path)
+		base := filepath.Base(e.Path)
+		// destinations are stored and compared verbatim: some are not in canonical form
+		switch r.Intn(6) {
+		case 0:
+			return "./" + base
+		case 1:
+			return base + "/"
+		case 2:
+			return "x/../" + base
+		}
+		return base
 	}
-	return r.pickOne("nowhere", "../up", "/abs/olute", "a/b")
+	return r.pickOne("nowhere", "../up", "/abs/olute", "a/b", "a//b", "./.", "dir/./file")
 }
 
 func (r *Rng) pickOne(xs ...string) string { return xs[r.Intn(len(xs))] }
